@@ -569,6 +569,9 @@ def check(P, R, tier):
     check_window(P, R)
     check_pairing(P, R)
     check_sed(P, R)
+    import finddecode
+    nf = finddecode.run(R, P, "RF2-find")
+    R.floor("RF2-find", "lines folded through the stream finder", nf, 10)
 
 
 LEVEL = ("Decides the structural necessary conditions of transparency: all accesses of the chunking reader stay inside its "
